@@ -410,6 +410,13 @@ func (x *sqlExec) runSelectCore(s *selectStmt, outer *scope) (*relation, error) 
 			rows[i] = ks[i].r
 		}
 	}
+	if s.offset > 0 {
+		if s.offset >= len(rows) {
+			rows = nil
+		} else {
+			rows = rows[s.offset:]
+		}
+	}
 	if s.limit != nil && len(rows) > *s.limit {
 		rows = rows[:*s.limit]
 	}
